@@ -15,6 +15,7 @@ import (
 	"math"
 	"math/rand"
 	"os"
+	"runtime"
 	"strconv"
 	"strings"
 )
@@ -310,3 +311,29 @@ var fallback uint64 = 0x9e3779b97f4a7c15
 
 // LastRandFloat returns the last value handed out by a NewRand generator's Float64.
 func LastRandFloat() float64 { return lastRand }
+
+// NumTok / FloatTok return a decimal token for an arbitrary number: under the
+// engine a placeholder that strconv turns back into the symbolic number,
+// natively the digits of the replayed value.
+func NumTok(label string) string { return strconv.FormatInt(parseI(next(label, "int")), 10) }
+func FloatTok(label string) string {
+	return strconv.FormatFloat(parseF(next(label, "f64")), 'g', -1, 64)
+}
+
+var allocBase uint64
+
+// AllocStart / AssertAllocBelow bracket a decoder call: natively the bytes
+// allocated in between must stay below limit; under the engine every make()
+// with a symbolic length is checked instead.
+func AllocStart() {
+	var ms runtime.MemStats
+	runtime.ReadMemStats(&ms)
+	allocBase = ms.TotalAlloc
+}
+func AssertAllocBelow(limit int, label string) {
+	var ms runtime.MemStats
+	runtime.ReadMemStats(&ms)
+	if ms.TotalAlloc-allocBase > uint64(limit) {
+		panic(abort{fmt.Sprintf("assert-failed %s (allocated %d bytes)", label, ms.TotalAlloc-allocBase)})
+	}
+}
